@@ -129,7 +129,7 @@ func (t *T) AddTransitions(n int64) { t.r.res.Transitions += n }
 func (t *T) AddStates(n int64)      { t.r.res.States += n }
 
 // Heartbeat tells the parent's watchdog that a long-running case is alive.
-func (t *T) Heartbeat() { t.r.Heartbeat() }
+func (t *T) Heartbeat()                 { t.r.Heartbeat() }
 func (t *T) AddExtra(k string, n int64) { t.r.res.Extra[k] += n }
 
 // GroupStat is the per-group coverage.
